@@ -3,7 +3,7 @@
    scripted terminal (any number of connections, any chunks, delays, silences, closes, refusals); the
    log is the one the correspondence run compares event by event, to the millisecond, with the real
    client's (writes per connection, opens, drops). *)
-From Zvt Require Import Base Length Cp437 Encoding Codec Lookup Sequence SeqLookup Client ClientProps ClientLog ClientTime ClientWire.
+From Zvt Require Import Base Length Cp437 Encoding Codec Lookup Sequence SeqLookup Client ClientProps ClientLog ClientTime ClientWire ClientSent ClientVet.
 Open Scope N_scope.
 
 (* after an Err item the very next poll drops the connection before doing anything else ... *)
@@ -86,6 +86,32 @@ Theorem C09_wrong_serial_in_configure_abandons_connection : forall cfg w w',
   get_system_info cfg w = (RErr EWrongDevice, w') -> w_cur w' = None.
 Proof. exact wrong_serial_in_configure_abandons_connection. Qed.
 
+(* "fresh ones are vetted", over whole histories: every write in the complete log that is not housekeeping (acknowledgement,
+   registration, identity query) — every COMMAND — has, further down the log and on the SAME connection, the registration and the
+   identity query (log_vet, spelt out by C09_log_vet_spec); with C09_connect_vetted (a connection is handed out only after both
+   were answered, the second naming the configured serial) no command ever reaches a terminal that was not asked who it is *)
+Theorem C09_history_commands_only_on_vetted : forall cfg ops scripts,
+  let '(_, _, _, w) := run_history cfg ops scripts in log_vet cfg (w_log w).
+Proof. exact history_commands_only_on_vetted. Qed.
+Theorem C09_log_vet_spec : forall cfg l pre id t b post, log_vet cfg l -> l = pre ++ EWrite id t b :: post -> ~ housekeeping cfg b ->
+  wrote post id (registration_cmd cfg) /\ wrote post id sysinfo_cmd.
+Proof. exact log_vet_spec. Qed.
+(* non-vacuity: the predicate rejects a command on a connection that was only registered *)
+Example C09_ex_log_vet_rejects :
+  let cfg := {| c_serial := []; c_terminal_id := []; c_currency := 978; c_amount := 1; c_read_card_timeout := 15; c_password := 0; c_max := 1 |} in
+  ~ log_vet cfg [EWrite 0 5 [6; 192]; EWrite 0 0 (registration_cmd cfg)] /\
+  log_vet cfg [EWrite 0 5 [6; 192]; EWrite 0 1 sysinfo_cmd; EWrite 0 0 (registration_cmd cfg)].
+Proof.
+  cbv zeta. split.
+  - intros [[H|[_ [t H]]] _].
+    + destruct H as [H|[H|H]]; vm_compute in H; discriminate H.
+    + destruct H as [H|[]]. vm_compute in H. discriminate H.
+  - cbn [log_vet]. repeat split.
+    + right. split; [exists 0; right; left; reflexivity|exists 1; left; reflexivity].
+    + left. right. right. reflexivity.
+    + left. right. left. reflexivity.
+Qed.
+
 Print Assumptions C09_after_err_drops_connection.
 Print Assumptions C09_wrong_serial_in_configure_abandons_connection.
 Print Assumptions C09_unexpected_reply_abandons_connection.
@@ -96,3 +122,5 @@ Print Assumptions C09_history_registration_first.
 Print Assumptions C09_connection_is_vetted.
 Print Assumptions C09_reuse_without_connect.
 Print Assumptions C09_items_keep_connection.
+Print Assumptions C09_history_commands_only_on_vetted.
+Print Assumptions C09_log_vet_spec.
